@@ -859,6 +859,7 @@ func defineUnionTypes(objectType *Union, unionTypes []*Object) ([]*Object, error
 		return definedUnionTypes, err
 	}
 
+	includedTypes := map[*Object]bool{}
 	for _, ttype := range unionTypes {
 		if err := invariantf(
 			ttype != nil,
@@ -866,6 +867,13 @@ func defineUnionTypes(objectType *Union, unionTypes []*Object) ([]*Object, error
 		); err != nil {
 			return definedUnionTypes, err
 		}
+		if err := invariantf(
+			!includedTypes[ttype],
+			`%v can include %v type only once.`, objectType, ttype,
+		); err != nil {
+			return definedUnionTypes, err
+		}
+		includedTypes[ttype] = true
 		if objectType.ResolveType == nil {
 			if err := invariantf(
 				ttype.IsTypeOf != nil,
